@@ -26,6 +26,7 @@ import (
 	sdk "github.com/cosmos/cosmos-sdk/types"
 	authtypes "github.com/cosmos/cosmos-sdk/x/auth/types"
 	banktypes "github.com/cosmos/cosmos-sdk/x/bank/types"
+	slashingtypes "github.com/cosmos/cosmos-sdk/x/slashing/types"
 	stakingtypes "github.com/cosmos/cosmos-sdk/x/staking/types"
 	"github.com/ethereum/go-ethereum/common"
 	"github.com/ethereum/go-ethereum/common/hexutil"
@@ -101,10 +102,20 @@ type Config struct {
 	MintReward           string
 	DistrEpoch           string
 	CommunityTax         string
-	StakerNative         string  // native balance of each staker/operator account
-	NumAVS               int     // funded accounts that act as AVS / task contracts (they call the AVS precompile themselves)
-	EVM                  *EVMCfg // nil: default EVM / fee market genesis, no contracts
+	StakerNative         string       // native balance of each staker/operator account
+	NumAVS               int          // funded accounts that act as AVS / task contracts (they call the AVS precompile themselves)
+	EVM                  *EVMCfg      // nil: default EVM / fee market genesis, no contracts
+	Slashing             *SlashingCfg // nil: default x/slashing parameters (window of 100 blocks)
 	GenesisUndelegations []delegationtypes.UndelegationRecord
+}
+
+// SlashingCfg sets the x/slashing parameters, so that downtime (validators missing from the
+// last commit) leads to a slash and jailing within a short history.
+type SlashingCfg struct {
+	Window           int64  // signed blocks window
+	MinSigned        string // decimal fraction of the window that must be signed
+	JailSeconds      int64  // downtime jail duration
+	FractionDowntime string // slash fraction for downtime
 }
 
 // EVMCfg configures the EVM side of a world (property C19).
@@ -271,6 +282,14 @@ func BuildWorld(cfg Config) (*World, error) {
 			fm.Params.MinGasMultiplier = math.LegacyMustNewDecFromStr(cfg.EVM.MinGasMultiplier)
 		}
 		gs[feemarkettypes.ModuleName] = cdc.MustMarshalJSON(fm)
+	}
+	if cfg.Slashing != nil {
+		sg := slashingtypes.DefaultGenesisState()
+		sg.Params.SignedBlocksWindow = cfg.Slashing.Window
+		sg.Params.MinSignedPerWindow = math.LegacyMustNewDecFromStr(cfg.Slashing.MinSigned)
+		sg.Params.DowntimeJailDuration = time.Duration(cfg.Slashing.JailSeconds) * time.Second
+		sg.Params.SlashFractionDowntime = math.LegacyMustNewDecFromStr(cfg.Slashing.FractionDowntime)
+		gs[slashingtypes.ModuleName] = cdc.MustMarshalJSON(sg)
 	}
 	gs[authtypes.ModuleName] = cdc.MustMarshalJSON(authtypes.NewGenesisState(authtypes.DefaultParams(), genAccs))
 	gs[banktypes.ModuleName] = cdc.MustMarshalJSON(banktypes.NewGenesisState(
